@@ -51,6 +51,17 @@ Definition import_find (imps : list import_spec) (short : string) : option impor
     end
   end.
 
+(* parseImplementsAnnotation: (PackageFullPath, PackageNotFound) of a qualifier *)
+Definition resolve_qualifier (cur_pkg : string) (imps : list import_spec) (pk : string) : string * bool :=
+  if String.eqb pk "" then (cur_pkg, false)
+  else match import_find imps pk with
+       | Some i =>
+           (* a match on the path alone does not bind the qualifier when the package name is known *)
+           if negb (String.eqb (i_pkgname i) "") && negb (String.eqb (i_alias i) pk) && negb (String.eqb (i_pkgname i) pk)
+           then ("", true) else (i_path i, false)
+       | None => ("", true)
+       end.
+
 (* ---------- doc comments ---------- *)
 (* the Doc comment group of a declaration: its first child, when that is a comment group in the Doc role *)
 Definition doc_lines (n : node) : option (list string) :=
@@ -124,12 +135,7 @@ Definition type_line (cur_pkg : string) (imps : list import_spec) (spec : node) 
   let a1 := if str_contains text "@implements" then
               match parse_implements re_impl text with
               | Some (ptr, pk, iface) =>
-                  let '(full, nf) :=
-                    if String.eqb pk "" then (cur_pkg, false)
-                    else match import_find imps pk with
-                         | Some i => (i_path i, false)
-                         | None => ("", true)
-                         end in
+                  let '(full, nf) := resolve_qualifier cur_pkg imps pk in
                   [{| ia_type := tn; ia_pos := pos; ia_iface := iface; ia_pkgname := pk; ia_ptr := ptr;
                       ia_fullpath := full; ia_notfound := nf |}]
               | None => []
